@@ -31,9 +31,22 @@ pub struct CaseIn {
     pub script: std::collections::HashMap<String, String>,
     #[serde(default)]
     pub flavour: String,
+    /// raw requests (op "raw")
+    #[serde(default)]
+    pub http_method: String,
+    #[serde(default)]
+    pub uri: String,
+    #[serde(default)]
+    pub headers: Vec<(String, String)>,
+    #[serde(default)]
+    pub body: String,
 }
 
 impl CaseIn {
+    pub fn raw_spec(&self) -> crate::svc::RawSpec {
+        crate::svc::RawSpec { method: self.http_method.clone(), uri: self.uri.clone(), headers: self.headers.clone(), body: self.body.clone(), seed: self.id }
+    }
+
     pub fn call_spec(&self) -> crate::svc::CallSpec {
         crate::svc::CallSpec { method: self.method.clone(), args: crate::svc::Args(self.args.clone()), script: self.script.clone(), seed: self.id }
     }
